@@ -124,7 +124,7 @@ CLAIMED.update({
 CLAIMED.update({
  'C05': dict(
    technique='Lean 4 proof: the derive macro modelled at definition level (field type expressions over parameters, Def.derive), classification theorem (ε-copy method iff the declared type is literally a parameter), ε-copy shape of derived types for arbitrary input bytes (conformance theorem by mutual structural induction), round trips as instances of the framing theorems; tied to the real macro by compiling a generated program of definitions drawn from the grammar and comparing core::any::type_name of the real DeserType, bytes and values',
-   text='Kernel-checked: instFields_spec / mem_replacedParams (the generated code uses the ε-copy method for a field iff its declared type is literally a type parameter; the replaced parameters are exactly those), derived_struct_eps_shape / derived_enum_eps_shape (whatever the input bytes, a returned ε-copy result of a derived deep-copy type has the ε-copy shape of the argument at literal-parameter fields and an owned fully deserialized value at every other field, including fields that merely mention a parameter), derived_zero_eps_is_ref (a zero-copy type becomes a reference), derived_roundtrip_full / derived_roundtrip_eps (every well-formed derived type round-trips every value in both modes), attrsOk_iff. The run generates definitions from the grammar (all struct and variant styles, type / const / defaulted / phantom parameters, bounds, where-clauses, attributes, nesting), compiles them with the working tree\'s derive macro, compares the real DeserType name of every instantiation with the documented substitution, the model derive with the registered type, and round-trips values in both modes; accept / reject probe programs per grammar feature.',
+   text='Kernel-checked: instFields_spec / mem_replacedParams (the generated code uses the ε-copy method for a field iff its declared type is literally a type parameter; the replaced parameters are exactly those), derived_struct_eps_shape / derived_enum_eps_shape (whatever the input bytes, a returned ε-copy result of a derived deep-copy type has the ε-copy shape of the argument at literal-parameter fields and an owned fully deserialized value at every other field, including fields that merely mention a parameter), derived_zero_eps_is_ref (a zero-copy type becomes a reference), derived_roundtrip_full / derived_roundtrip_eps, derive_wf_iff and grammar_roundtrip (well-formedness stated on the definition and its arguments — power-of-two align(N), well-formed field types, variant count, ZeroCopy fields for a zero-copy declaration — is exactly well-formedness of the derived type; every such definition, instantiation and value round-trips in both modes), attrsOk_iff. The run generates definitions from the grammar (all struct and variant styles, type / const / defaulted / phantom parameters, bounds, where-clauses, attributes, nesting), compiles them with the working tree\'s derive macro, compares the real DeserType name of every instantiation with the documented substitution, the model derive with the registered type, and round-trips values in both modes; accept / reject probe programs per grammar feature.',
    note='the macro\'s token manipulation is not modelled: Def.derive is what it is observed to generate on the explored definitions (generator-bounded); the three definitions the macro did not handle were repaired (fix commits 2589d3a, 8779dbe, 2989fc5).',
    design='5/C05'),
 })
